@@ -1,6 +1,6 @@
 (* The nested client: what acceptance means at every level of blocks. *)
 From Coq Require Import ZArith List Bool Arith Lia.
-From CV Require Import C09.ParseModel C09.ParseProofs C09.LookupProofs C09.FlatProofs C09.OrigProofs.
+From CV Require Import C09.ParseModel C09.ParseProofs C09.NumProofs C09.LookupProofs C09.FlatProofs C09.OrigProofs.
 Import ListNotations.
 Local Open Scope Z_scope.
 
@@ -110,3 +110,83 @@ Lemma blocks_are_pieces_of_parent : forall conf key,
 Proof.
   intros conf key. unfold key_string_values. apply ksv_loop_pieces. intros d [].
 Qed.
+
+(* ------------------------------------------------------------------ required keywords; tuples *)
+
+Lemma get_keyval_err : forall strict conf st key k0,
+  exists bad, ps_err (get_keyval strict conf st (key, k0)) =
+    ps_err st || ksv_err (key_string_values conf key) ||
+    (match base_kind k0 with KBlock => false | _ => (1 <? ksv_count (key_string_values conf key))%nat end) || bad ||
+    (is_required k0 && negb (ksv_found (key_string_values conf key))).
+Proof.
+  intros strict conf st key k0. unfold get_keyval.
+  match goal with |- context [let '(v, bad) := ?X in _] => destruct X as [v bad] end.
+  exists bad. reflexivity.
+Qed.
+
+Lemma get_keyval_err_mono : forall strict conf st kk, ps_err st = true -> ps_err (get_keyval strict conf st kk) = true.
+Proof.
+  intros strict conf st [key k0] H. destruct (get_keyval_err strict conf st key k0) as [bad E]. rewrite E, H. reflexivity.
+Qed.
+
+Lemma fold_err_mono : forall strict conf schema st, ps_err st = true ->
+  ps_err (fold_left (get_keyval strict conf) schema st) = true.
+Proof.
+  intros strict conf. induction schema as [|kk rest IH]; intros st H; [exact H|].
+  cbn [fold_left]. apply IH. apply get_keyval_err_mono. exact H.
+Qed.
+
+(* a keyword that the client looks up with parse_required and that is absent makes the configuration refused *)
+Lemma required_keyword_present : forall strict schema conf vs key k,
+  In (key, KReq k) schema -> parse_flat strict schema conf = PAccept vs ->
+  ksv_found (key_string_values conf key) = true.
+Proof.
+  intros strict schema conf vs key k Hi H. unfold parse_flat in H.
+  set (st0 := {| ps_allowed := []; ps_regs := []; ps_err := false; ps_oof := false; ps_values := [] |}) in *.
+  destruct (ps_oof _); [discriminate|]. destruct (check_keywords _ _ _); [|discriminate].
+  destruct (ps_err (fold_left (get_keyval strict conf) schema st0)) eqn:E; [discriminate|].
+  destruct (ksv_found (key_string_values conf key)) eqn:F; [reflexivity|]. exfalso.
+  assert (G : forall sch st, In (key, KReq k) sch -> ps_err (fold_left (get_keyval strict conf) sch st) = true).
+  { induction sch as [|kk rest IH]; intros st HI; [destruct HI|].
+    cbn [fold_left]. destruct HI as [HI|HI].
+    - subst kk. apply fold_err_mono. destruct (get_keyval_err strict conf st key (KReq k)) as [bad Eb].
+      rewrite Eb, F. cbn [is_required negb andb]. rewrite !orb_true_r. reflexivity.
+    - apply IH. exact HI. }
+  rewrite (G schema st0 Hi) in E. discriminate.
+Qed.
+
+Lemma expect_char_length : forall c l r, expect_char c l = Some r -> (length r < length l)%nat.
+Proof.
+  intros c l r H. unfold expect_char in H. pose proof (NumProofs.skip_space_length l) as HL.
+  destruct (skip_space l) as [|x t]; [discriminate|]. destruct (x =? c); [|discriminate].
+  inversion H. subst. cbn [length] in HL. lia.
+Qed.
+
+Lemma extract_tuple_progress : forall n l v r, extract_tuple n l = ExtOk v r -> (length r < length l)%nat.
+Proof.
+  intros n l v r H. unfold extract_tuple in H.
+  destruct (expect_char 40 l) as [l1|] eqn:E1; [|discriminate]. apply expect_char_length in E1.
+  destruct (tuple_items n l1) as [[vs r1]|] eqn:T; [|discriminate].
+  destruct (expect_char 41 r1) as [r2|] eqn:E2; [|discriminate]. apply expect_char_length in E2.
+  inversion H. subst.
+  assert (Ht : forall n l vs r, tuple_items n l = Some (vs, r) -> (length r <= length l)%nat).
+  { induction n0 as [|m IH]; intros l0 vs0 r0 H0.
+    - cbn in H0. inversion H0. lia.
+    - cbn [tuple_items] in H0. pose proof (NumProofs.skip_space_length l0) as HL.
+      destruct (skip_space l0) as [|c t]; [discriminate|].
+      destruct (extract_real (c :: t)) as [v0 r3|] eqn:Er; [|discriminate].
+      apply NumProofs.extract_real_progress in Er.
+      destruct m as [|m'].
+      + inversion H0. subst. lia.
+      + destruct (expect_char 44 r3) as [r4|] eqn:Ec; [|discriminate]. apply expect_char_length in Ec.
+        destruct (tuple_items (S m') r4) as [[vs1 r5]|] eqn:T2; [|discriminate].
+        apply IH in T2. inversion H0. subst. lia. }
+  apply Ht in T. lia.
+Qed.
+
+(* a 3-vector / quaternion / vector value is accepted iff, after leading white space, the text is
+   "( x , ... )" read by extract_tuple and nothing but white space follows *)
+Lemma tuple_value_strict : forall n data v,
+  scalar_value (extract_tuple n) data = SAccept v <->
+  exists rest, skip_space data <> [] /\ extract_tuple n (skip_space data) = ExtOk v rest /\ NumProofs.all_space rest.
+Proof. intros n. apply (NumProofs.scalar_value_iff (extract_tuple n) (extract_tuple_progress n)). Qed.
